@@ -23,6 +23,7 @@ type EPConfig struct {
 	ReplayWindow   int      `json:"replay_window"`
 	DynOff         bool     `json:"dyn_off"`
 	Clone          bool     `json:"clone"`
+	Via            string   `json:"via,omitempty"` // how the configuration reaches the connection: "" as it is; "clone"; "host-clone" (GetConfigForClient hands out a clone per hello); "host-lax" (GetConfigForClient answers lax.example with a NoClientCert configuration, nil otherwise)
 	MinVersion     uint16   `json:"min_version"`
 	MaxVersion     uint16   `json:"max_version"`
 	RetransMs      int      `json:"retrans_ms"`
